@@ -183,8 +183,31 @@ class Program:
         from . import terms as _T
         _T.PACKAGE_HEADS.update(fi.short for fi in self.functions.values())
         self.attr_domains = self._attr_domains()
+        _T.LIST_ATTRS.clear()
+        _T.LIST_ATTRS.update(self._list_attrs())
         _T.NOTNONE_CALLS.clear()
         _T.NOTNONE_CALLS.update(fi.short for fi in self.functions.values() if _returns_not_none(fi.node))
+
+    def _list_attrs(self):
+        """attribute names whose every store in the package assigns a list (literal, comprehension, list()/sorted() call):
+        their truth value is `len(x) != 0`"""
+        vals = {}
+        for m in self.modules.values():
+            for n in ast.walk(m.tree):
+                if isinstance(n, ast.Assign):
+                    for t in n.targets:
+                        if isinstance(t, ast.Attribute):
+                            vals.setdefault(t.attr, []).append(n.value)
+                elif isinstance(n, (ast.AugAssign, ast.AnnAssign)) and isinstance(n.target, ast.Attribute):
+                    vals.setdefault(n.target.attr, []).append(None)
+                elif isinstance(n, ast.Call) and isinstance(n.func, ast.Name) and n.func.id == 'setattr':
+                    vals.setdefault('*', []).append(None)
+
+        def listy(v):
+            if isinstance(v, (ast.List, ast.ListComp)):
+                return True
+            return isinstance(v, ast.Call) and isinstance(v.func, ast.Name) and v.func.id in ('list', 'sorted')
+        return {a for a, vs in vals.items() if a != '*' and vs and all(v is not None and listy(v) for v in vs)}
 
     def _attr_domains(self):
         """(class qual, attribute) -> sorted constants, for attributes with a constructor-checked finite domain:
